@@ -45,8 +45,8 @@ PROBE_INVS = ["EvalIsDenote", "ParseRender", "ValuationsComplete", "ParseStable"
 # ----------------------------------------------------------------------------------------
 
 def _imports():
-    global Vector3, Block, Message, ml, compile_filter, HippoHTTPFlow, CapData, tflow, tutils
-    from hippolyzer.lib.base.datatypes import Vector3
+    global Vector3, Quaternion, TaggedUnion, Block, Message, ml, compile_filter, HippoHTTPFlow, CapData, tflow, tutils
+    from hippolyzer.lib.base.datatypes import Vector3, Quaternion, TaggedUnion
     from hippolyzer.lib.base.message.message import Block, Message
     from hippolyzer.lib.proxy import message_logger as ml
     from hippolyzer.lib.proxy.message_filter import compile_filter
@@ -67,7 +67,13 @@ def pyval(v):
         return None
     if t == "vec":
         return Vector3(*v["v"])
+    if t == "quat":
+        return Quaternion(*v["v"])
     raise common.MachineryError("bad typed value %r" % (v,))
+
+
+def val_repr(v):
+    return "<packed>" if v["ty"] == "packed" else repr(pyval(v))
 
 
 def lit_text(l, hexint=False):
@@ -89,8 +95,13 @@ def lit_py(l):
     return tuple(l["v"]) if l["ty"] == "vec" else pyval(l)
 
 
+def sel_text(sel):
+    """The fourth selector component (subfield name / glob) travels as code points."""
+    return ".".join(x if isinstance(x, str) else "".join(chr(c) for c in x) for x in sel)
+
+
 def atom_text(a, tight=False, hexint=False):
-    s = ".".join(a["sel"])
+    s = sel_text(a["sel"])
     if a["op"]:
         s += ("%s%s" if tight else " %s %s") % (a["op"], lit_text(a["lit"], hexint))
     return s
@@ -104,19 +115,40 @@ def entry_has_vec(e):
     return any(v["val"]["ty"] == "vec" for b in e["blocks"] for v in b["vars"])
 
 
+# Fields with a subfield serializer: how the named subfields are packed into the real field
+# (`Var_=` makes Block run the field's registered serializer when it joins the message).
+_SUB_PACK = {
+    ("ObjectUpdate", "ObjectData", "ObjectData"): lambda d: TaggedUnion(60, d),       # full-precision form
+    ("ImprovedTerseObjectUpdate", "ObjectData", "Data"): lambda d: d,
+}
+
+
+def _block_kwargs(name, b):
+    kw = {}
+    for v in b["vars"]:
+        if v.get("subs"):
+            pack = _SUB_PACK.get((name, b["blk"], v["var"]))
+            if pack is None:
+                raise common.MachineryError("no subfield packer for %s.%s.%s" % (name, b["blk"], v["var"]))
+            kw[v["var"] + "_"] = pack({"".join(chr(c) for c in sf["sub"]): pyval(sf["val"]) for sf in v["subs"]})
+        else:
+            kw[v["var"]] = pyval(v["val"])
+    return kw
+
+
 def build_entry(e, eid=0):
     """Real log entry for a model entry.  `eid` is a tag readable through public attributes."""
     kind = e["kind"]
     meta = {m["key"]: pyval(m["val"]) for m in e["meta"] if m["val"]["ty"] != "none"}
     if kind == "LLUDP":
-        blocks = [Block(b["blk"], **{v["var"]: pyval(v["val"]) for v in b["vars"]}) for b in e["blocks"]]
+        blocks = [Block(b["blk"], **_block_kwargs(e["name"], b)) for b in e["blocks"]]
         msg = Message(e["name"], *blocks, packet_id=eid)
         msg.meta.update(meta)
         return ml.LLUDPMessageLogEntry(msg, None, None)
     if kind == "EQ":
         body = {"id": eid}
         for b in e["blocks"]:
-            body.setdefault(b["blk"], []).append({v["var"]: pyval(v["val"]) for v in b["vars"]})
+            body.setdefault(b["blk"], []).append({v["var"]: pyval(v["val"]) for v in b["vars"] if not v.get("subs")})
         ent = ml.EQMessageLogEntry({"message": e["name"], "body": body}, None, None)
     elif kind == "HTTP":
         fl = tflow.tflow(req=tutils.treq(path=b"/%d" % eid), resp=tutils.tresp())
@@ -213,7 +245,7 @@ def _has_le_ge(toks):
 
 def leaf_equals(leaf, a):
     want = ("na",) if not a["op"] else ("lit", lit_py(a["lit"]))
-    if leaf[0] != list(a["sel"]) or leaf[1] != a["op"] or leaf[2][0] != want[0]:
+    if leaf[0] != sel_text(a["sel"]).split(".") or leaf[1] != a["op"] or leaf[2][0] != want[0]:
         return False
     return want[0] == "na" or (type(leaf[2][1]) is type(want[1]) and leaf[2][1] == want[1])
 
@@ -225,6 +257,8 @@ def leaf_equals(leaf, a):
 def atom_where(a):
     if len(a["sel"]) == 1:
         return "name"
+    if len(a["sel"]) == 4:
+        return "subfield"
     return "meta" if a["sel"][0] == "Meta" else "field"
 
 
@@ -574,13 +608,19 @@ def _replay_edges(edge_ids):
     g, W = _G, _W
     agg = Agg()
     n = 0
-    for ei in edge_ids:
+    for item in edge_ids:
+        # item = edge index, or (self-loop edge, following edge): the abstractly idle action is replayed first
+        pre = []
+        if isinstance(item, tuple):
+            pre, ei = [g.edges[item[0]]], item[1]
+        else:
+            ei = item
         e = g.edges[ei]
         for wrapped in (False, True):
             im = _Impl(W, wrapped)
             hist = []
             deviated = False
-            for pe in g.path_to(e["_s"]):
+            for pe in g.path_to(e["_s"]) + pre:
                 im.apply(pe["act"])
                 hist.append(pe["act"])
                 if im.view() != pe["obs"]["view"]:
@@ -626,7 +666,7 @@ def _act_text(a):
     if a["n"] == "Log":
         e = _ENTS[a["e"] - 1]
         return "log %s %s meta=%s blocks=%s" % (e["kind"], e["name"], [(m["key"], pyval(m["val"])) for m in e["meta"]],
-                                                [(b["blk"], [(v["var"], repr(pyval(v["val"]))) for v in b["vars"]]) for b in e["blocks"]])
+                                                [(b["blk"], [(v["var"], val_repr(v["val"])) for v in b["vars"]]) for b in e["blocks"]])
     if a["n"] == "SetFilter":
         return "set_filter(%r)" % toks_text(_FLTS[a["f"] - 1])
     if a["n"] == "SetPaused":
@@ -634,7 +674,7 @@ def _act_text(a):
     return "clear()"
 
 
-def _machine(chk: Check, agg: Agg, W, max_log, depth, use_ent, use_flt, label):
+def _machine(chk: Check, agg: Agg, W, max_log, depth, use_ent, use_flt, label, with_pairs=True):
     global _G, _W, _ENTS, _FLTS
     consts = _consts(W=W, MaxLog=max_log, Depth=depth, UseEnt=use_ent, UseFlt=use_flt)
     # the export run enumerates the same graph and checks the invariants on it
@@ -652,7 +692,17 @@ def _machine(chk: Check, agg: Agg, W, max_log, depth, use_ent, use_flt, label):
     _ENTS, _FLTS = init["entries"], init["filters"]
     g = Graph(recs)
     _G, _W = g, W
-    ids = g.reachable_edges()
+    # + every (self-loop, following edge) pair: a paused log call, a refused filter text ... must not disturb hidden state
+    pairs = g.selfloop_pairs() if with_pairs else []
+    if chk.tier == "quick":
+        # one idle log call per state is enough in the quick tier (the paused log calls of a state differ only in the dropped entry)
+        first_log = {}
+        for i, _ in pairs:
+            le = g.edges[i]
+            if le["act"]["n"] == "Log":
+                first_log[le["_s"]] = min(first_log.get(le["_s"], i), i)
+        pairs = [(i, j) for i, j in pairs if g.edges[i]["act"]["n"] != "Log" or first_log[g.edges[i]["_s"]] == i]
+    ids = g.reachable_edges() + pairs
     results = common.parallel_map(_replay_edges, common.chunked(ids, common.NCPU * 6))
     for n, items in results:
         chk.count(n)
@@ -660,6 +710,8 @@ def _machine(chk: Check, agg: Agg, W, max_log, depth, use_ent, use_flt, label):
     chk.cov["traces_validated_against_impl"] += 2 * len(ids)
     chk.cov.setdefault("b1_edges_replayed", 0)
     chk.cov["b1_edges_replayed"] += 2 * len(ids)
+    chk.cov.setdefault("b1_selfloop_pairs_replayed", 0)
+    chk.cov["b1_selfloop_pairs_replayed"] += 2 * len(pairs)
     for e in g.edges:
         if e["src"] != e["dst"]:
             chk.nontrivial(("edge", label, e["_s"], common.skey(e["act"])))
@@ -703,7 +755,7 @@ def _rand_entry(rng, with_vec, kind=None):
     if kind != "HTTP":
         for _ in range(rng.randrange(0, 4)):
             names = [n for n in ("A", "B", "C") if rng.random() < 0.6]
-            blocks.append({"blk": rng.choice(["Bar", "Baz"]), "vars": [{"var": n, "val": _rand_val(rng, with_vec)} for n in names]})
+            blocks.append({"blk": rng.choice(["Bar", "Baz"]), "vars": [{"var": n, "val": _rand_val(rng, with_vec), "subs": []} for n in names]})
         # a message groups its blocks by name: keep equal names adjacent so that the arrival order is the model's
         blocks.sort(key=lambda b: b["blk"])
     return {"kind": kind, "name": rng.choice(["Foo", "Foo", "Zed"]), "meta": meta, "blocks": blocks}
@@ -731,6 +783,44 @@ def _rand_atom(rng, with_vec):
     if with_vec and op in _ORD and lit["ty"] in ("str", "bytes"):
         lit = _iv(rng.randrange(0, 8))
     return {"sel": sel, "op": op, "lit": lit}
+
+
+_CP = lambda t: [ord(c) for c in t]
+_SUB_GLOBS = ["Position", "Velocity", "Acceleration", "AngularVelocity", "Rotation", "*", "*c*", "A*", "*Velocity", "*ion", "*x*", "*o*"]
+_NO_ROT = {"Position", "Velocity", "Acceleration", "AngularVelocity", "*c*", "A*", "*Velocity", "*x*"}
+
+
+def _rand_sub_entry(rng):
+    """An ObjectUpdate whose ObjectData field unpacks to five named subfields (1-2 block instances)."""
+    def vec():
+        return {"ty": "vec", "v": [rng.choice([0, 1, 3])] * 3 if rng.random() < 0.7 else [rng.randrange(0, 4) for _ in range(3)]}
+    blocks = []
+    for _ in range(rng.choice([1, 1, 2])):
+        subs = [{"sub": _CP("Position"), "val": vec()}, {"sub": _CP("Velocity"), "val": vec()}, {"sub": _CP("Acceleration"), "val": vec()},
+                {"sub": _CP("Rotation"), "val": {"ty": "quat", "v": rng.choice([[0, 0, 0, 1], [1, 0, 0, 0], [0, 1, 0, 0]])}},
+                {"sub": _CP("AngularVelocity"), "val": vec()}]
+        blocks.append({"blk": "ObjectData", "vars": [{"var": "ObjectData", "val": {"ty": "packed", "v": 0}, "subs": subs}]})
+    meta = [{"key": "Q", "val": _rand_val(rng, False, ("int", "str", "none"))}] if rng.random() < 0.5 else []
+    return {"kind": "LLUDP", "name": "ObjectUpdate", "meta": meta, "blocks": blocks}
+
+
+def _rand_sub_atom(rng):
+    """Four-part selectors (kept inside FilterLog!InDomain: no ordered comparison that reaches the quaternion)."""
+    c = rng.random()
+    if c < 0.12:
+        return {"sel": [rng.choice(["ObjectUpdate", "*", "Zed"])], "op": "", "lit": NOLIT}
+    if c < 0.22:
+        return {"sel": ["Meta", "Q"], "op": rng.choice(["==", "&"]), "lit": _iv(rng.randrange(0, 4))}
+    g = rng.choice(_SUB_GLOBS)
+    head = rng.choice([["ObjectUpdate", "ObjectData", "ObjectData"]] * 3 + [["*", "*", "*"], ["ObjectUpdate", "*", "ObjectData"], ["LLUDP", "ObjectData", "*"]])
+    if rng.random() < 0.15:
+        return {"sel": head + [_CP(g)], "op": "", "lit": NOLIT}
+    vec = {"ty": "vec", "v": [rng.choice([0, 1, 2, 3])] * 3}
+    op, lit = rng.choice([("==", vec), ("==", vec), ("!=", vec), ("<", vec), (">=", vec), (">", vec), ("&", _iv(1)), ("==", _iv(1)), ("<", _iv(2)),
+                          ("^=", _sv("a")), ("==", NONE)])
+    if op in _ORD and lit["ty"] == "vec" and g not in _NO_ROT:
+        g = rng.choice(sorted(_NO_ROT))
+    return {"sel": head + [_CP(g)], "op": op, "lit": lit}
 
 
 def _rand_tokens(rng, depth, atoms):
@@ -770,7 +860,8 @@ def _expr_traces(chk: Check, n_traces, per_trace, depth):
     traces = []
     for t in range(n_traces):
         with_vec = rng.random() < 0.4
-        atoms = [_rand_atom(rng, with_vec) for _ in range(rng.randrange(2, 6))]
+        sub = t % 4 == 3            # every fourth trace: subfield (four-part) selectors on messages with unpackable fields
+        atoms = [(_rand_sub_atom(rng) if sub else _rand_atom(rng, with_vec)) for _ in range(rng.randrange(2, 6))]
         evs = []
         for _ in range(per_trace):
             toks = _rand_tokens(rng, rng.randrange(0, depth + 1), atoms)
@@ -789,7 +880,7 @@ def _expr_traces(chk: Check, n_traces, per_trace, depth):
                 continue
             leaves = [tk[1] for tk in toks if tk[0] == "atom"]
             for _ in range(3):
-                e = _rand_entry(rng, with_vec)
+                e = _rand_sub_entry(rng) if sub else _rand_entry(rng, with_vec)
                 stage = rng.choice(stages_for(e))
                 s2, ent = impl_call(staged, e, stage)
                 if s2 != "ok":
@@ -809,8 +900,9 @@ def _walk_traces(chk: Check, n_walks, length, W):
     traces = []
     for t in range(n_walks):
         with_vec = rng.random() < 0.3
-        atoms = [_rand_atom(rng, with_vec) for _ in range(4)] + [{"sel": ["*"], "op": "", "lit": NOLIT}]
-        pool = [_rand_entry(rng, with_vec) for _ in range(5)]
+        sub = t % 5 == 4            # subfield selectors over messages with unpackable fields
+        atoms = [(_rand_sub_atom(rng) if sub else _rand_atom(rng, with_vec)) for _ in range(4)] + [{"sel": ["*"], "op": "", "lit": NOLIT}]
+        pool = [(_rand_sub_entry(rng) if sub else _rand_entry(rng, with_vec)) for _ in range(5)]
         im = _Impl(W, wrapped=rng.random() < 0.5)
         evs = []
         for _ in range(length):
@@ -1126,7 +1218,7 @@ def _ev_text(p):
     if p["ev"] == "Log":
         e = p["e"]
         return "log %s %s meta=%s blocks=%s -> %s" % (e["kind"], e["name"], [(m["key"], pyval(m["val"])) for m in e["meta"]],
-                                                    [(b["blk"], [(v["var"], repr(pyval(v["val"]))) for v in b["vars"]]) for b in e["blocks"]], p["view"])
+                                                    [(b["blk"], [(v["var"], val_repr(v["val"])) for v in b["vars"]]) for b in e["blocks"]], p["view"])
     if p["ev"] == "SetFilter":
         return "set_filter(%r) %s -> %s" % (p["text"], p["res"], p["view"])
     if p["ev"] == "Pause":
@@ -1149,7 +1241,11 @@ def run(chk: Check):
     chk.assumptions += [
         "value domain: ints 0..7, str/bytes over {a,b}, None, 3-vectors; literals as the grammar allows; patterns are a name or '*'",
         "out of domain (FilterLog!InDomain): `~=` on vector fields or with an int literal on bytes (Python membership), ordered "
-        "comparison of a vector with a text literal; four-part (subfield) selectors, Meta.x.y, enum and Meta.* compare values",
+        "comparison of a vector with a text literal or of a quaternion with a vector/text literal (zip truncation), comparisons against "
+        "the packed bytes of a field that has a subfield serializer; Meta.x.y, enum and Meta.* compare values",
+        "four-part selectors select the named subfields a field unpacks to (bound through ObjectUpdate.ObjectData.ObjectData and "
+        "ImprovedTerseObjectUpdate.ObjectData.Data; the fourth component is an exact name or a '*' glob); a field whose unpacked "
+        "value is not a mapping has no selectable subfields",
         "a bare three-part selector asks for the presence of the field; a bare Meta selector for its truthiness (as the code documents)",
         "an ill-formed filter text is refused by set_filter and changes nothing",
         "re-imported entries are compared through filters only when they hold no vector field (LLSD has no vector type), and through "
@@ -1179,7 +1275,7 @@ def run(chk: Check):
         _machine(chk, agg, 2, 4, 9, "{1,2,3,4}", "{1,2,3,4,5,6,7}", "W2")
         _machine(chk, agg, 1, 4, 7, "{1,2,3,4}", "{1,2,3,4,5,6,7}", "W1")
         _machine(chk, agg, 3, 5, 7, "{1,2,4}", "{1,2,4,5,6}", "W3")
-        _machine(chk, agg, 2, 5, 7, "{1,2,3,4}", "{1,2,3,4,5,6,7}", "W2 five entries")
+        _machine(chk, agg, 2, 5, 7, "{1,2,3,4}", "{1,2,3,4,5,6,7}", "W2 five entries", with_pairs=False)
     lap("machine")
     # ---- part 3: code -> spec
     n = 1 if quick else 8
